@@ -519,10 +519,14 @@ def consume_oracle(ex, usable, og, cs, fail):
     n = 0
     kinds = collections.Counter()
     for h, hm in usable:
-        for maker in ('oneshot', 'generator', 'iterator', 'defaultdict', 'plain'):
+        for maker in ('oneshot', 'sized-oneshot', 'container-oneshot', 'generator', 'iterator', 'defaultdict', 'plain'):
             base = [1, 'a', 2]
             if maker == 'oneshot':
                 x = gen.OneShot(base)
+            elif maker == 'sized-oneshot':
+                x = gen.SizedOneShot(base)
+            elif maker == 'container-oneshot':
+                x = gen.ContainerOneShot(base)
             elif maker == 'generator':
                 x = (y for y in base)
             elif maker == 'iterator':
@@ -549,8 +553,8 @@ def consume_oracle(ex, usable, og, cs, fail):
             n += 1
             kinds[maker] += 1
             rp = {'hint': repr(h), 'object_kind': maker}
-            if maker == 'oneshot' and x.consumed:
-                fail(f'C10:consumed:oneshot:{shape(hm)}', f'checking a one-shot iterable against {h!r:.160} advanced it {x.consumed} time(s)', rp)
+            if maker.endswith('oneshot') and x.consumed:
+                fail(f'C10:consumed:{maker}:{shape(hm)}', f'checking a {maker} iterable against {h!r:.160} advanced it {x.consumed} time(s)', rp)
             if maker in ('generator', 'iterator'):
                 try:
                     first = next(x)
